@@ -23,7 +23,7 @@ var processCreators = map[string]int{
 }
 
 func c18(c *Ctx) {
-	c.R.Explanation = "C18 decided at the level of code paths (SSA of /repo): R-who = every process-creating call (exec.Command*, os.StartProcess, syscall.Exec/ForkExec, literal exec.Cmd) with a non-constant program lies in the one function that performs the permission check; R-dominate = that call is reachable only through the nil-error edge of CheckFilePermissionsForExecution applied to the same SSA value, in the same activation (=> repeated before every execution; the check writes no package-level state), and the error edge returns a non-nil error; R-samefile = no repository code stores to Dir, Path, Args or SysProcAttr of an exec.Cmd (the program string is resolved identically by the check and by the start); R-predicate = every nil-error return of the check crossed edges establishing Uid==0, (Gid==0 or mode&0o020==0), mode&0o002==0 on os.Stat of the EvalSymlinks result; R-config = configuration.Validate applies the check to the config path, a failure yields an error on all paths, and it can be skipped only when neither a cmd fan nor a cmd sensor exists; R-gate = RunDaemon is entered only after Validate succeeded. Not decided: TOCTOU between check and exec (outside the statement)."
+	c.R.Explanation = "C18 decided at the level of code paths (SSA of /repo): R-who = every process-creating call (exec.Command*, os.StartProcess, syscall.Exec/ForkExec, literal exec.Cmd) with a non-constant program lies in the one function that performs the permission check; R-dominate = that call is reachable only through the nil-error edge of CheckFilePermissionsForExecution applied to the same SSA value, in the same activation (=> repeated before every execution; the check writes no package-level state), and the error edge returns a non-nil error; R-samefile = no repository code stores to Dir, Path, Args or SysProcAttr of an exec.Cmd (the program string is resolved identically by the check and by the start); R-predicate = every nil-error return of the check crossed edges establishing Uid==0, (Gid==0 or mode&0o020==0), mode&0o002==0 on os.Stat of the EvalSymlinks result; R-config = configuration.Validate applies the check to the config path, a failure yields an error on all paths, and it can be skipped only when neither a cmd fan nor a cmd sensor exists; R-gate = RunDaemon is entered only after Validate succeeded. R-once = after a process-creating call with a non-constant program (or a call of a creator wrapper) no further such call is reachable in the same activation without crossing the nil-error edge of a new check (no retry loop around the start). Not decided: TOCTOU between check and exec (outside the statement)."
 	c.R.Assumptions = append(c.R.Assumptions,
 		"os/exec, os.Stat, filepath.EvalSymlinks and syscall.Stat_t behave as documented (library summary table)",
 		"constant-program exec calls (who, id, sudo in the desktop notifier) are not sensor/fan commands")
@@ -157,6 +157,80 @@ func c18(c *Ctx) {
 	c.R.Require("R-who", 1)
 	c.R.Require("R-dominate", 1)
 	_ = execCall
+
+	// ---- R-once: one successful check licenses one process start ----------------
+	// From the point after a process-creating call with a non-constant program (or a call of a creator wrapper)
+	// no such call is reachable again in the same activation without crossing the nil-error edge of a check:
+	// a retry loop around the start would run the file a second time on the verdict of the first check.
+	nOnce := 0
+	for _, fn := range c.P.Funcs {
+		var creators []*ssa.Call
+		Calls(fn, func(cc ssa.CallInstruction) {
+			call, ok := cc.(*ssa.Call)
+			if !ok {
+				return
+			}
+			argi, isPC := processCreators[ir.CallName(call)]
+			if !isPC {
+				if st := ir.Callee(call).Static; st != nil {
+					if wi, isW := wrappers[st]; isW {
+						argi, isPC = wi, true
+					}
+				}
+			}
+			if !isPC || argi >= len(call.Call.Args) {
+				return
+			}
+			if _, isConst := ir.ConstString(call.Call.Args[argi]); isConst {
+				return
+			}
+			creators = append(creators, call)
+		})
+		if len(creators) == 0 {
+			continue
+		}
+		var okEdges []edge
+		Calls(fn, func(cc ssa.CallInstruction) {
+			call, isCall := cc.(*ssa.Call)
+			if !isCall || ir.Callee(cc).Static == nil {
+				return
+			}
+			if _, isChecker := checkers[ir.Callee(cc).Static]; !isChecker {
+				return
+			}
+			if ev := errValueOfCall(call); ev != nil {
+				okEdges = append(okEdges, nilEdges(fn, ev, false)...)
+			}
+		})
+		isOK := func(b *ssa.BasicBlock, si int) bool {
+			for _, e := range okEdges {
+				if e.b == b && e.si == si {
+					return true
+				}
+			}
+			return false
+		}
+		for _, cr := range creators {
+			nOnce++
+			key := c.FK(fn) + "|" + ir.CallName(cr)
+			var again *ssa.Call
+			ir.Search{StopEdge: isOK}.Reach([]ir.Point{ir.After(cr)}, func(ins ssa.Instruction, _ *ssa.BasicBlock) {
+				for _, other := range creators {
+					if ins == ssa.Instruction(other) && again == nil {
+						again = other
+					}
+				}
+			})
+			if again != nil {
+				c.R.Bad("R-once", key, c.FK(fn), c.P.Pos(again.Pos()), "after the process-creating call at "+c.P.Pos(cr.Pos())+" a process-creating call is reachable again without a new permission check (retry loop / second start): the file is executed on the verdict of an earlier check, although its owner or mode may have changed since")
+			} else {
+				c.R.Ok("R-once", key, c.FK(fn), c.P.Pos(cr.Pos()), "no further process-creating call is reachable after this one without crossing the nil-error edge of a new check")
+			}
+		}
+	}
+	if nOnce == 0 {
+		c.R.Undecided("R-once", "none", "(whole program)", "-", "no process-creating call with a non-constant program found (anchor unresolved)")
+	}
 	c.R.Stats["process_creating_call_sites"] = nSites
 
 	// the check must not memoise: no store to a package-level variable in its call tree
